@@ -92,17 +92,16 @@ theorem linv_step (E D : Spec.Rfc4493.BlockFn) (cfg : Config) (sys : Sys) (i : N
     | uplink s => exact key _ (linv_stepUplink E sys s fault h)
     | join s => exact key _ (linv_stepJoin E cfg sys s fault h)
     | notify p c =>
-      refine key (if sys.scheduled.contains c.device.eui then (sys, [.done])
-        else ({ sys with scheduled := c.device.eui :: sys.scheduled }, [.sendAt c])) ?_
+      refine key (stepNotify sys c) ?_
+      unfold stepNotify
       split
       · exact h
       · exact ⟨h.lc, h.now⟩
     | sendAt c =>
-      refine key (match (fobTake sys.fob c.device c.gw.dataRate).2 with
-        | some p => ({ sys with fob := (fobTake sys.fob c.device c.gw.dataRate).1 }, [.sendDone c.device.eui, .encoder 0 p c []])
-        | none => ({ sys with fob := (fobTake sys.fob c.device c.gw.dataRate).1 }, [.sendDone c.device.eui])) ?_
+      refine key (stepSendAt sys c) ?_
+      unfold stepSendAt
       split <;> exact ⟨h.lc, h.now⟩
-    | sendDone e => exact key ({ sys with scheduled := sys.scheduled.filter (· != e) }, [.done]) ⟨h.lc, h.now⟩
+    | sendDone e => exact key (stepSendDone sys e) ⟨h.lc, h.now⟩
     | encoder pc p c b => exact key _ (linv_stepEncoder E D sys pc p c b fault h)
     | done => exact key (sys, [.done]) h
 
